@@ -6,12 +6,22 @@
   resolve equally (the normalisation laws themselves are C19's); and the kernel-checked obligations over facts
   REGENERATED from /repo: Parse finishes the block phase (parseBlocks) before the inline phase (parseBlock),
   the map is written only by the link-reference-definition code and read only by the link parser.
-  Not provable here (first half): independence of neighbouring closed blocks rests on the block driver, which is
-  not modelled; it is searched by the `indep` component (A, heading, B triples and moved definitions on the
-  real library).
+  First half (independence of neighbouring closed blocks): stated on the executable model of the whole block
+  phase (GM.Model.Blocks, tied to the real parser by the `blocks` / `blockindep` correspondences) as
+  `IndependentBlocks` — a `def … : Prop`, NOT proved in general; it is EVALUATED by the driver on every triple the
+  `blockindep` component generates (GM.Blocks.indepCheck) and, in the same run, on the real parser's trees and on
+  the HTML of goldmark.Convert. PROVED here, for every state of the model (reachable or not), are the two
+  mechanisms the property names: "the open-block stack is fully unwound when a non-lazy line at column 0 opens a
+  new top-level block" (`closeBlocks_removes_exactly`, `stack_unwound`, `stack_empty_at_end_of_document`, `heading_line_unwinds_stack`,
+  `blank_line_closes_heading`, `heading_and_blank_line_reset`, `heading_and_blank_line_reset_top`) and "context keys used as cross-line flags are
+  reset when their block closes" (`fence_key_reset_on_close`, `setext_key_reset_on_close`,
+  `close_keeps_list_flags`), plus which open blocks a heading line closes (`first_block_closes_*`).
 -/
 import GM.Proof.Refs
 import GM.Gen.PhaseFacts
+import GM.Props.Convert
+import GM.Proof.IndepReset
+import GM.Proof.IndepEnd
 
 namespace GM.Props.C09
 open GM GM.Refs
@@ -71,5 +81,223 @@ example : ∃ (A B : List (Bytes × Nat)), A ≠ [] ∧ B ≠ [] ∧
   simp only [List.mem_singleton] at ha hb
   subst ha; subst hb
   simp [toLinkReference, trimLeftSpace, trimRightSpace, isTrimSpace, caseFold, replaceSpaces, hasInnerRun]
+
+/-! ### the map the composed model really builds (package `convert`: GM.Model.LinkRef = parser/link_ref.go) -/
+
+/-- whatever a paragraph defines, every key the map already has keeps its destination and title -/
+theorem first_definition_wins : type_of% @GM.Props.Convert.first_definition_wins := @GM.Props.Convert.first_definition_wins
+/-- the map a paragraph leaves is `ds.foldl GM.Refs.addRef refs` for the list `ds` of its definitions: the theorems above
+    (`refs_first_wins`, `refs_move_invariant`, `resolve_position_independent`) speak about the map the model of Transform builds -/
+theorem scan_builds_map_by_add_reference : type_of% @GM.Props.Convert.scan_builds_map_by_add_reference :=
+  @GM.Props.Convert.scan_builds_map_by_add_reference
+theorem duplicate_definition_ignored : type_of% @GM.Props.Convert.duplicate_definition_ignored := @GM.Props.Convert.duplicate_definition_ignored
+theorem new_definition_resolves : type_of% @GM.Props.Convert.new_definition_resolves := @GM.Props.Convert.new_definition_resolves
+/-- what Transform keeps of a paragraph is its lines without an initial segment (unconditional, of the model with its
+    contract monitor; the arithmetic lemma for adjacent ranges is `transformer_removes_front_partial`) -/
+theorem transformer_removes_front : type_of% @GM.Props.Convert.transformer_removes_front := @GM.Props.Convert.transformer_removes_front
+theorem transformer_removes_front_partial : type_of% @GM.Props.Convert.transformer_removes_front_partial :=
+  @GM.Props.Convert.transformer_removes_front_partial
+theorem title_needs_blank_rest_of_line : type_of% @GM.Props.Convert.title_needs_blank_rest_of_line :=
+  @GM.Props.Convert.title_needs_blank_rest_of_line
+theorem scan_stops_at_first_non_definition : type_of% @GM.Props.Convert.scan_stops_at_first_non_definition :=
+  @GM.Props.Convert.scan_stops_at_first_non_definition
+/-! ## First half: closed blocks are parsed independently of their neighbours -/
+
+section independence
+open GM.Text GM.Blocks
+
+/-- **C09, first half, on block trees — the full statement (not proved in general).** For documents `a`, `b` and
+    a heading text `h`: whenever the side conditions hold (`indepPair` answers `some`: no `[` / CR in `a`, `b`; `h`
+    is one line; `# h` is a level-1 heading; the deepest last block of `a` is not a code / fenced code / HTML block)
+    the block tree of `a`, blank line, `# h`, blank line, `b` is the tree of `a`, then that heading, then the tree of
+    `b` with all segments moved (dumps compared, `HasBlankPreviousLines` where the block phase reads it).
+
+    What is established: (1) EVALUATED by the model driver (`blocks indep`) on every triple of the `blockindep`
+    component — all pairs of short strings over block alphabets, all short strings against 64 probe documents both
+    ways round, corpus pairs — with the same answer computed on the real parser's trees, 0 failures;
+    (2) PROVED below, for all states: mechanism (ii) "reset" — after the heading line and the blank line no block is
+    open, whatever was open before (`heading_and_blank_line_reset`), and every `Close` writes its context key back.
+    What is MISSING for a proof of this statement: (i) prefix determinism (the state after the lines of `a` does not
+    depend on what follows), (iii) shift invariance (the line loop started at offset `k` builds the tree of `b`
+    moved by `k`), that reachable states satisfy the hypotheses of (ii) (open blocks are valid nodes, a list's last
+    item has a positive content offset), that the stale `emptyListItemWithBlankLines` flag is never read before a
+    list parser rewrites it, and the tree-level bookkeeping (Document children) of (ii). -/
+def IndependentBlocks (a h b : Bytes) : Prop :=
+  ∀ e g, indepPair a h b = some (e, g) → e = g
+
+/-- **The open-block stack loses exactly the blocks it is asked to close** (parser.go:900-918): from ANY state,
+    `closeBlocks(from, to)` — if it does not panic — leaves `openedBlocks[:to] ++ openedBlocks[from+1:]`; no `Close`
+    function of the ten block parsers touches the stack. -/
+theorem closeBlocks_removes_exactly (frm to : Int) (s s' : St) (h : closeBlocks frm to s = .ok ((), s')) :
+    0 ≤ to ∧ s'.pc.opened = s.pc.opened.take to.toNat ++ s.pc.opened.drop (frm + 1).toNat :=
+  closeBlocks_opened frm to s s' h
+
+/-- **The open-block stack is fully unwound**: `closeBlocks(len-1, 0)` — what parseBlocks does at the end of the
+    source and when a line continues none of the open blocks — leaves no block open, from any state. -/
+theorem stack_unwound (s s' : St) (h : closeBlocks ((s.pc.opened.length : Int) - 1) 0 s = .ok ((), s')) :
+    s'.pc.opened = [] :=
+  closeBlocks_unwinds s s' h
+
+/-- **At the end of every document the open-block stack is empty**: for EVERY source, if the block phase
+    (`parser.parseBlocks` under the Document) ends normally, no block is open in its final state — whatever the
+    document ends in (an open list, a lazy paragraph line, an unclosed fence, trailing blank lines). A statement
+    about the reachable states of whole runs, all inputs; proved through `openBlocks` (the stack changes only when
+    it answers `newBlocksOpened`), the line loop and the outer loop. -/
+theorem stack_empty_at_end_of_document (src : Bytes) (s : St) (h : run src = .ok s) : s.pc.opened = [] :=
+  run_opened_empty src s h
+
+/-- **fencedCodeBlockInfoKey is reset when its block closes** (fcode_block.go:29, :109-114): after `Close` of the
+    fenced code block that set the key, the key is nil, from any state. -/
+theorem fence_key_reset_on_close (node : Nat) (s s' : St) (h : fencedClose node s = .ok ((), s'))
+    (hk : s.pc.fence.map (·.node) = some node) : s'.pc.fence = none :=
+  fencedClose_resets node s s' h hk
+
+/-- **temporaryParagraphKey is reset when its block closes** (setext_headings.go:9, :72, :85): after `Close` of a
+    setext heading the key is nil, from any state. -/
+theorem setext_key_reset_on_close (node : Nat) (s s' : St) (h : setextClose node s = .ok ((), s')) :
+    s'.pc.tmpPara = none :=
+  setextClose_resets node s s' h
+
+/-- **No `Close` writes the list parser's flags** `skipListParser` / `emptyListItemWithBlankLines` (list.go:19-21):
+    closing any number of blocks leaves both as they were — they are written by the list / list item parsers'
+    `Open` and `Continue` only. -/
+theorem close_keeps_list_flags (frm to : Int) (s s' : St) (h : closeBlocks frm to s = .ok ((), s')) :
+    s'.pc.skipList = s.pc.skipList ∧ s'.pc.emptyItemBlank = s.pc.emptyItemBlank :=
+  (closeBlocks_sameListKeys frm to).h s () s' h
+
+/-- **A heading line at column 0 unwinds the whole stack** (parser.go:1081-1123, one pass of the line loop). The
+    reader stands on the line `# …` (`AtLine`); at least one block is open; the open blocks are valid node ids; the
+    first open block is a paragraph or does not continue on this line (`ClosesAt`, see `first_block_closes_*`).
+    Then the pass, if it ends normally, leaves EXACTLY ONE open block — the new heading, a fresh node — however
+    many blocks of whatever kind were open; `skipListParser` and `emptyListItemWithBlankLines` are untouched and
+    the reader has not moved. From any state. -/
+theorem heading_line_unwinds_stack (rest : Bytes) (s : St) (be : Block) (obs : List Block) (stats : List LineStat)
+    (hl : AtLine (35 :: 32 :: rest) s.r) (hop : s.pc.opened = be :: obs)
+    (hids : ∀ b ∈ be :: obs, b.node < s.nodes.length)
+    (hfirst : (s.nodes.getD be.node default).kind = .paragraph ∨ ClosesAt (35 :: 32 :: rest) be s)
+    (out : LineOutcome) (stats' : List LineStat) (s' : St)
+    (h : lineLoop 0 (be :: obs) (obs.length : Int) (be :: obs) 0 stats s = .ok ((out, stats'), s')) :
+    out = .next ∧ s'.pc.opened = [⟨s.nodes.length, .atx⟩] ∧ s.nodes.length < s'.nodes.length ∧
+      s'.pc.skipList = s.pc.skipList ∧ s'.pc.emptyItemBlank = s.pc.emptyItemBlank ∧ Cur s s' :=
+  headingLine_unwinds rest s be obs stats hl hop hids hfirst out stats' s' h
+
+/-- **The blank line after the heading closes it**: with the heading as the only open block, the pass over the line
+    `\n` leaves no block open; flags and reader position as before. From any state. -/
+theorem blank_line_closes_heading (s : St) (hd : Nat) (stats : List LineStat)
+    (hl : AtLine [10] s.r) (hop : s.pc.opened = [⟨hd, .atx⟩])
+    (out : LineOutcome) (stats' : List LineStat) (s' : St)
+    (h : lineLoop 0 [⟨hd, .atx⟩] 0 [⟨hd, .atx⟩] 0 stats s = .ok ((out, stats'), s')) :
+    out = .next ∧ s'.pc.opened = [] ∧ s.nodes.length ≤ s'.nodes.length ∧
+      s'.pc.skipList = s.pc.skipList ∧ s'.pc.emptyItemBlank = s.pc.emptyItemBlank ∧ Cur s s' :=
+  blankLine_closes_heading s hd stats hl hop out stats' s' h
+
+/-- **Reset** — mechanism (ii) at the level of parseBlocks' loop over lines (parser.go:1074-1126). The reader stands
+    on a non-indented ATX heading line `# …` followed by the blank line `\n`; some blocks are open (valid node
+    ids), the first of them is a paragraph or does not continue on the heading line. Then the loop, if it ends
+    normally, returns to the outer loop of parseBlocks after exactly these two lines with NO BLOCK OPEN, with
+    `skipListParser` / `emptyListItemWithBlankLines` as they were, the node store grown by at least the heading,
+    and the reader at the line after the blank line: what the outer loop sees next is what it sees at the start of
+    a document, up to the contents of the node store, the reader offset and the two flags. From any state. -/
+theorem heading_and_blank_line_reset (rest : Bytes) (s : St) (be : Block) (obs : List Block) (stats : List LineStat)
+    (fuel : Nat) (hl : AtLine (35 :: 32 :: rest) s.r) (hnext : AtLine [10] s.r.advanceLine)
+    (hop : s.pc.opened = be :: obs) (hids : ∀ b ∈ be :: obs, b.node < s.nodes.length)
+    (hfirst : (s.nodes.getD be.node default).kind = .paragraph ∨ ClosesAt (35 :: 32 :: rest) be s)
+    (ret : Bool) (stats' : List LineStat) (s' : St)
+    (h : linesLoop 0 (fuel + 3) stats s = .ok ((ret, stats'), s')) :
+    ret = false ∧ s'.pc.opened = [] ∧ s.nodes.length < s'.nodes.length ∧
+      s'.pc.skipList = s.pc.skipList ∧ s'.pc.emptyItemBlank = s.pc.emptyItemBlank ∧
+      s'.r.pos = s.r.advanceLine.advanceLine.pos ∧ s'.r.source = s.r.source :=
+  heading_blank_resets rest s be obs stats fuel hl hnext hop hids hfirst ret stats' s' h
+
+/-- **Reset when nothing is open** — the other path through parseBlocks (parser.go:1055-1127), taken when `a`
+    left no list open: the outer loop stands on a non-indented ATX heading line `# …` followed by the blank line
+    `\\n`, no block is open. Then, if the run ends normally, the rest of the run IS the outer loop started again
+    after exactly these two lines, in a state with no block open, `skipListParser` / `emptyListItemWithBlankLines`
+    as they were, the node store grown by the heading, the reader at the line after the blank line. From any
+    state. -/
+theorem heading_and_blank_line_reset_top (rest : Bytes) (s : St) (stats : List LineStat) (fuel : Nat)
+    (hl : AtLine (35 :: 32 :: rest) s.r) (hnext : AtLine [10] s.r.advanceLine)
+    (hop : s.pc.opened = []) (s' : St) (h : blocksLoop 0 (fuel + 3) stats s = .ok ((), s')) :
+    ∃ stats'' s'', s''.pc.opened = [] ∧ s.nodes.length < s''.nodes.length ∧
+      s''.pc.skipList = s.pc.skipList ∧ s''.pc.emptyItemBlank = s.pc.emptyItemBlank ∧
+      s''.r.pos = s.r.advanceLine.advanceLine.pos ∧ s''.r.source = s.r.source ∧
+      blocksLoop 0 (fuel + 2) stats'' s'' = .ok ((), s') :=
+  heading_blank_resets_top rest s stats fuel hl hnext hop s' h
+
+/-- A block quote does not continue on a line that starts with `#` (blockquote.go:20-40, :53-58). -/
+theorem first_block_closes_blockquote (rest : Bytes) (be : Block) (s : St) (hbp : be.bp = .blockquote) :
+    ClosesAt (35 :: rest) be s :=
+  closesAt_blockquote rest be s hbp
+
+/-- A list whose last item is a list item with a positive content offset does not continue on a line that starts
+    with `#` in column 0 (list.go:165-245): the line is neither indented to the item's content nor a list item. -/
+theorem first_block_closes_list (rest : Bytes) (be : Block) (s : St) (hbp : be.bp = .list)
+    (hli : LastItemIndented s.nodes be.node) : ClosesAt (35 :: rest) be s :=
+  closesAt_list rest be s hbp hli
+
+/-- An indented code block does not continue on a line that starts with `#` (code_block.go:46-71). -/
+theorem first_block_closes_code (rest : Bytes) (be : Block) (s : St) (hbp : be.bp = .code) :
+    ClosesAt (35 :: rest) be s :=
+  closesAt_code rest be s hbp
+
+/-- ATX headings, thematic breaks and setext headings never continue, on any line. -/
+theorem first_block_closes_one_line (line : Bytes) (be : Block) (s : St)
+    (hbp : be.bp = .atx ∨ be.bp = .thematic ∨ be.bp = .setext) : ClosesAt line be s :=
+  closesAt_oneLine line be s hbp
+
+/-! ### tests and non-vacuity (labelled: evaluated on literals, not theorems over all inputs) -/
+
+/-- test: the statement applies to A = `- a`, h = `h`, B = `> b` and holds there -/
+example : (indepPair [45, 32, 97] [104] [62, 32, 98]).map (fun p => p.1 == p.2) = some true := by decide +kernel
+
+/-- test: it applies and holds for an A that ends in an empty list item followed by a blank line (the case that
+    leaves `emptyListItemWithBlankLines` set) and a B that is a list -/
+example : (indepPair [45, 10, 10] [104] [45, 32, 98, 10]).map (fun p => p.1 == p.2) = some true := by decide +kernel
+
+/-- test: an A that ends inside an open fenced code block is outside the statement -/
+example : indepPair [96, 96, 96] [104] [98] = none := by decide +kernel
+
+/-- a state on the heading line `# h` (followed by a blank line) with an open list and list item -/
+def exampleState : St :=
+  { r := Reader.new [35, 32, 104, 10, 10],
+    nodes := [{ kind := .document, children := [1] },
+              { kind := .list, parent := some 0, children := [2], marker := 45 },
+              { kind := .listItem, parent := some 1, offset := 2 }],
+    pc := { opened := [⟨1, .list⟩, ⟨2, .listItem⟩] } }
+
+/-- non-vacuity of `heading_and_blank_line_reset`: every hypothesis holds of `exampleState` … -/
+example : AtLine [35, 32, 104, 10] exampleState.r := ⟨by decide, by decide, by rfl, .inl rfl⟩
+example : AtLine [10] exampleState.r.advanceLine := ⟨by decide, by decide, by rfl, .inl rfl⟩
+example : ∀ b ∈ exampleState.pc.opened, b.node < exampleState.nodes.length := by decide
+example : ClosesAt [35, 32, 104, 10] ⟨1, .list⟩ exampleState :=
+  first_block_closes_list _ _ _ rfl ⟨2, by decide, by decide, by decide⟩
+
+/-- … and the loop does end normally there (so the conclusion is about a real run): no block open afterwards -/
+example : (linesLoop 0 3 [] exampleState).toOption.map (fun r => (r.1.1, r.2.pc.opened)) = some (false, []) := by
+  decide +kernel
+
+/-- non-vacuity of `stack_empty_at_end_of_document`: runs that end normally, e.g. on a document that ends inside an
+    open list item and on one that ends inside an unclosed fence -/
+example : (run [45, 32, 97]).toOption.isSome = true ∧ (run [96, 96, 96, 10, 120]).toOption.isSome = true := by
+  decide +kernel
+
+/-- non-vacuity of `stack_unwound` / `closeBlocks_removes_exactly`: `closeBlocks(1, 0)` on the two open blocks of
+    `exampleState` ends normally -/
+example : (closeBlocks ((exampleState.pc.opened.length : Int) - 1) 0 exampleState).toOption.map (fun r => r.2.pc.opened)
+    = some [] := by decide +kernel
+
+/-- non-vacuity of `heading_and_blank_line_reset_top`: the initial state of the document `# h\n\n` has no block open,
+    stands on the heading line, and its run ends normally -/
+example : AtLine [35, 32, 104, 10] (initSt [35, 32, 104, 10, 10]).r ∧ AtLine [10] (initSt [35, 32, 104, 10, 10]).r.advanceLine ∧
+    (initSt [35, 32, 104, 10, 10]).pc.opened = [] :=
+  ⟨⟨by decide, by decide, by rfl, .inl rfl⟩, ⟨by decide, by decide, by rfl, .inl rfl⟩, rfl⟩
+example : (blocksLoop 0 (0 + 3) [] (initSt [35, 32, 104, 10, 10])).toOption.isSome = true := by decide +kernel
+
+/-- non-vacuity of `fence_key_reset_on_close` / `setext_key_reset_on_close`: states in which the key is set and
+    `Close` ends normally -/
+example : (fencedClose 1 { exampleState with pc := { fence := some ⟨96, 0, 3, 1⟩ } }).toOption.map (fun r => r.2.pc.fence.isNone)
+    = some true := by decide +kernel
+
+end independence
 
 end GM.Props.C09
